@@ -855,7 +855,7 @@ set_option linter.unusedSimpArgs false
 
 /-- membership in the fragment, by computation -/
 macro "ft_mem" d:ident : tactic =>
-  `(tactic| simp [$d:ident, FtList, FfList, Ff, FaList, FfArms, okParam, okName, okBinder, okSym, okHead, foBuiltins, hoNames])
+  `(tactic| simp [$d:ident, FtList, FfList, Ff, FaList, FfArms, okRest, okParam, okName, okBinder, okSym, okHead, foBuiltins, hoNames])
 
 /-- `(defn sq [x] (* x x)) (trace (sq 3))` -/
 def demoF2 : List Expr :=
@@ -923,7 +923,7 @@ def demoF2Loop : List Expr :=
    .call (.sym "trace") [.call (.sym "sum") [.int 5]]]
 
 macro "ft_mem2" d:ident : tactic =>
-  `(tactic| simp [$d:ident, FtList, FfList, Ff, FaList, FfArms, FfBinds, okParam, okName, okBinder, okSym, okHead, foBuiltins, hoNames])
+  `(tactic| simp [$d:ident, FtList, FfList, Ff, FaList, FfArms, FfBinds, okRest, okParam, okName, okBinder, okSym, okHead, foBuiltins, hoNames])
 
 example : FtList demoF2Acc = true := by ft_mem2 demoF2Acc
 example : FtList demoF2And = true := by ft_mem2 demoF2And
@@ -1049,7 +1049,7 @@ theorem compile_correct_on_F2x : CompileCorrectOn (fun p => FxTop p = true) := b
     | cont l rs' => rw [hres] at h; exact h.elim
 
 macro "fx_mem" d:ident : tactic =>
-  `(tactic| simp [$d:ident, FxTop, FxList, Fx, FxArms, lblOk, FtList, FfList, Ff, FaList, FfArms, FfBinds, okParam, okName, okBinder,
+  `(tactic| simp [$d:ident, FxTop, FxList, Fx, FxArms, lblOk, FtList, FfList, Ff, FaList, FfArms, FfBinds, okRest, okParam, okName, okBinder,
       okSym, okHead, foBuiltins, hoNames])
 
 /-- `(def s 0) (for [(def i 0) (< i 9) (set i (+ i 1))] (cond (== i 1) (break) nil) (set s (+ s 5))) s` -/
@@ -1119,6 +1119,48 @@ example : ∃ fuel' o, obsOfRef (Ref.runProgram 12 demoBrk Ref.initSt).1 = some 
   | brk l rs' => rw [hres] at h; simp [refClass] at h
   | cont l rs' => rw [hres] at h; simp [refClass] at h
 
+/-! ## Variadic functions (a rest parameter) -/
+
+/-- `(defn cnt [a & more] (+ a (len more))) (trace (cnt 1 2 3 4))`: the arguments beyond the fixed ones are packed
+into a list (`wrangleOptargs` in `CallFunction`) -/
+def demoVar : List Expr :=
+  [.defn "cnt" ["a"] (some "more") [.call (.sym "+") [.sym "a", .call (.sym "len") [.sym "more"]]],
+   .call (.sym "trace") [.call (.sym "cnt") [.int 1, .int 2, .int 3, .int 4]]]
+
+/-- `(defn cnt [a & more] (+ a (len more))) (cnt)`: too few arguments for the fixed part -/
+def demoVarArity : List Expr :=
+  [.defn "cnt" ["a"] (some "more") [.call (.sym "+") [.sym "a", .call (.sym "len") [.sym "more"]]],
+   .call (.sym "cnt") []]
+
+/-- `(defn pack [& xs] xs) (trace (pack 1 2)) (pack)`: only a rest parameter -/
+def demoVarOnly : List Expr :=
+  [.defn "pack" [] (some "xs") [.sym "xs"], .call (.sym "trace") [.call (.sym "pack") [.int 1, .int 2]], .call (.sym "pack") []]
+
+theorem demoVar_in : FtList demoVar = true := by ft_mem2 demoVar
+example : FtList demoVarArity = true := by ft_mem2 demoVarArity
+example : FtList demoVarOnly = true := by ft_mem2 demoVarOnly
+
+set_option maxRecDepth 8000 in
+theorem demoVar_ref :
+    refClass (Ref.evalBegin 16 demoVar 0 { Ref.initSt with trace := [] }) = some (some (.int 4#64)) := by
+  simp [demoVar, Ref.evalBegin, Ref.eval, Ref.evalArgs, Ref.applyFn, Ref.bindParams, Ref.newFrame,
+    Ref.define, Ref.setVar, Ref.lookup, Ref.lookupIn, Ref.initSt, Ref.assocSet, Ref.globalNames, coreBuiltins,
+    refClass, List.lookup, prim, isFunction, allInts, intOfLit, Ref.isLazyParam, rebindOk, tyOf, mkList, listToArray, isCmp]
+
+example : ∃ fuel' o, obsOfRef (Ref.runProgram 16 demoVar Ref.initSt).1 = some o
+    ∧ obsOfVM (VM.runText fuel' demoVar VM.initSt).1 = some o := by
+  have h := demoVar_ref
+  cases hres : Ref.evalBegin 16 demoVar 0 { Ref.initSt with trace := [] } with
+  | ok v rs' =>
+    have ho : obsOfRef (Ref.runProgram 16 demoVar Ref.initSt).1 = some (.ok (pr rs'.heap v) rs'.trace) := by
+      unfold Ref.runProgram; simp only [hres]; rfl
+    obtain ⟨f, hf⟩ := compile_correct_on_F2 demoVar demoVar_in (by decide) 16 _ ho
+    exact ⟨f, _, ho, hf⟩
+  | err rs' => rw [hres] at h; simp [refClass] at h
+  | timeout => rw [hres] at h; simp [refClass] at h
+  | brk l rs' => rw [hres] at h; simp [refClass] at h
+  | cont l rs' => rw [hres] at h; simp [refClass] at h
+
 /-! ## F2c: self tail calls -/
 
 /-- **A call in tail position of a function body** (`Sim.simT_selfcall`, restated): whatever the
@@ -1132,14 +1174,15 @@ theorem tail_call_simulates {k : Nat} {self h : String} {args : List Expr} (hh :
     (hfa : FaList args = true) (hself : (h != self) = true ∨ FfList false self args = true)
     (isFn : Nat → Bool) (c : Ctx) (gs : GS) (r : (List Instr × Bool) × GS)
     (hc : (compile isFn c (.call (.sym h) args)).run gs = .ok r) (hfn : FnameOk self c)
-    {ps : List String} (hkn : KnownOk c gs ps) (hps : ∀ p ∈ ps, okParam p = true)
+    {ps : List String} {rest : Option String} (hkn : KnownOk c gs ps rest) (hps : ∀ p ∈ ps ++ rest.toList, okParam p = true)
     {m₁ : Nat → Nat} {s₁ : St} {rs₁ : Ref.St} {env vid : Nat} {D : List (Option Val)} {m : Nat → Nat} {s : St} {rs : Ref.St}
     {cenv : Nat} {pre post : List Instr}
     (hact : InAct m₁ s₁ rs₁ env vid D c.scopes m s rs) (hnargs : (fnOf s₁ vid).nargs = ps.length)
+    (hva : (fnOf s₁ vid).varargs = rest.isSome)
     (hrel : RelF m s rs cenv) (hseg : Seg s pre r.1.1 post) :
     SimT r.1.1 s₁ env D m s rs cenv (Ref.eval (k + 2) (.call (.sym h) args) cenv rs) := by
   obtain ⟨_, _, _, hA, hU, _, _, _, _, _, _, hV, _⟩ := fclaims (k + 1)
-  exact simT_selfcall hV hA hU hh hhead hfa hself isFn c gs r hc hfn hkn hps hact hnargs hrel hseg
+  exact simT_selfcall hV hA hU hh hhead hfa hself isFn c gs r hc hfn hkn hps hact hnargs hva hrel hseg
 
 /-- **`CompileCorrect` for F2c**: program texts of top-level statements whose loops may `break`/`continue`
 (`Fx [] ""`, so every program of Fx) and top-level `defn`s whose bodies (`FzList true`) call the function
@@ -1174,7 +1217,7 @@ theorem compile_correct_on_F2c : CompileCorrectOn (fun p => FyList p = true) := 
 
 macro "fy_mem" d:ident : tactic =>
   `(tactic| simp [$d:ident, FyList, Fy, FzList, Fz, FzArms, FxList, Fx, FxArms, lblOk, FtList, FfList, Ff, FaList, FfArms, FfBinds,
-      okParam, okName, okBinder, okSym, okHead, foBuiltins, hoNames])
+      okRest, okParam, okName, okBinder, okSym, okHead, foBuiltins, hoNames])
 
 /-- `(defn loop [i acc] (cond (== i 0) acc (loop (- i 1) (+ acc i)))) (trace (loop 3 0))`: a loop by a self tail
 call -/
@@ -1229,6 +1272,15 @@ example : FyList demoBrk = true ∧ FyList demoOuter = true := by
   constructor
   · fy_mem demoBrk
   · fy_mem demoOuter
+
+/-- `(defn f [n & r] (cond (== n 0) (len r) (f (- n 1) n n))) (trace (f 2))`: a self tail call of a variadic function
+(`PrepareCall` packs the tail before the jump) -/
+def demoVarTail : List Expr :=
+  [.defn "f" ["n"] (some "r") [.cond [(.call (.sym "==") [.sym "n", .int 0], .call (.sym "len") [.sym "r"])]
+      (.call (.sym "f") [.call (.sym "-") [.sym "n", .int 1], .sym "n", .sym "n"])],
+   .call (.sym "trace") [.call (.sym "f") [.int 2]]]
+
+example : FyList demoVarTail = true := by fy_mem demoVarTail
 
 theorem demoTail_in : FyList demoTail = true := by fy_mem demoTail
 theorem demoTailRebind_in : FyList demoTailRebind = true := by fy_mem demoTailRebind
@@ -1292,7 +1344,7 @@ def InProvedFragment (p : List Expr) : Prop :=
 
 /-- **The part of `CompileCorrect` that is NOT proved**: programs that are in none of Fv, Fc, F2, Fx, F2c —
 i.e. using a `fn`/`defn` inside
-an operand of a call (compiled at run time), with a rest parameter, lazy parameters, a self call in
+an operand of a call (compiled at run time), with lazy parameters, a self call in
 a directly compiled non-tail position or in a nested `defn`, `map`/`apply`/`force`/`substitute`, computed call heads,
 `break`/`continue` inside the body of a nested function, an empty `newScope`, or (together with calls or
 array literals) a binder that re-uses a builtin name. Held by the 3-way `eval` correspondence on
@@ -1309,7 +1361,7 @@ def CompileCorrectOutsideProved : Prop := CompileCorrectOn (fun p => ¬ InProved
    * Fc — the same with binder names that are not builtin names, plus calls of first-order
      builtins (arithmetic, comparisons, `not`, lists, arrays, strings, `trace`), operands evaluated
      in nested runs, array literals, and `for` loops without `break`/`continue` — `compile_correct_on_Fc`;
-   * F2 — `defn`/`fn` of fixed arity at top level and nested, closures capturing (and assigning to)
+   * F2 — `defn`/`fn` of fixed arity or with a rest parameter (`[a b & more]`) at top level and nested, closures capturing (and assigning to)
      locals of the functions they were made in, calls of user functions by name (also through
      variables: functions are values), recursion, first-order builtins, `def`/`set`/`begin`/`cond`/
      `and`/`or`/`newScope`/`letseq`/`let`/array literals/`for` loops;
@@ -1328,8 +1380,8 @@ def CompileCorrectOutsideProved : Prop := CompileCorrectOn (fun p => ¬ InProved
 
 MISSING (held by the `eval` correspondence only): `CompileCorrectOutsideProved` — `break`/`continue`
 inside the bodies of nested functions (`fn`, `defn` not at top level), the rest of F2
-(`fn`/`defn` inside operands, varargs), self tail calls in nested `defn`s and together with
-`break`/`continue`, F3 (`map`/`apply`, lazy parameters). -/
+(`fn`/`defn` inside operands), self tail calls and `break`/`continue` in nested functions,
+F3 (`map`/`apply`, lazy parameters). -/
 theorem compile_correct_partial :
     CompileCorrectOn InProvedFragment
     ∧ (CompileCorrectOutsideProved → CompileCorrect)
